@@ -333,6 +333,8 @@ let run_case op toks =
             match ss.[k] with
             | 'F' -> SlFull
             | 'P' -> SlPair (cast t kz, cast t (List.nth ls k))
+            | 'C' -> SlCPair (zi 0, zi 2)
+            | 'K' -> SlCPair (zi 1, zi 3)
             | _ -> SlIndex (cast t kz)) ks in
         let ml = match sub_extents_p t e sl with
           | None -> "ub"
@@ -345,10 +347,14 @@ let run_case op toks =
                          match c with
                          | 'F' -> true
                          | 'P' -> (not (is_neg kz)) && z_le kz lz && z_le lz x
+                         | 'C' -> z_le (zi 2) x
+                         | 'K' -> z_le (zi 3) x
                          | _ -> (not (is_neg kz)) && z_lt kz x)
                        (List.mapi (fun k kz -> (ss.[k], (kz, List.nth ls k))) ks) xs in
         let ssl = List.mapi (fun k kz ->
-            match ss.[k] with 'F' -> SlFull | 'P' -> SlPair (kz, List.nth ls k) | _ -> SlIndex kz) ks in
+            match ss.[k] with
+            | 'F' -> SlFull | 'P' -> SlPair (kz, List.nth ls k)
+            | 'C' -> SlCPair (zi 0, zi 2) | 'K' -> SlCPair (zi 1, zi 3) | _ -> SlIndex kz) ks in
         let sp = sub_pattern ssl p and sx = sub_shape ssl xs in
         let spl = join ([ "ok"; string_of_int (List.length sp); nat_s (rank_dynamic sp) ] @ List.map pat_tok sp @ zl sx) in
         (ml, if dom then spl else "na")
@@ -439,18 +445,25 @@ let run_case op toks =
           (line (sp_sub_d parent o c), if dom then spec_span_line buf (Z.add start o) cnt None else "na")
       | "sp_obs" ->
           let i = size_arg a in
+          let bytes_line (r : spanv) =
+            join [ zs r.s_off; zs r.s_size; (match r.s_ext with None -> "-1" | Some n -> zs n) ] in
+          let spec_bytes =
+            join [ zs (Z.mul start (zi 4)); zs (Z.mul len (zi 4));
+                   (match x with None -> "-1" | Some n -> zs (Z.mul n (zi 4))) ] in
           let ml =
             match sp_index parent i with
             | Ok addr ->
                 (* front()/back() need a non-empty span, implied by i < size() *)
                 join [ span_line buf parent; zs (Z.mul parent.s_size (zi 4)); b2s (z_eq parent.s_size Z0);
                        zs parent.s_size; zs addr; zs parent.s_off;
-                       zs (Z.sub (Z.add parent.s_off parent.s_size) (zi 1)); zs parent.s_off; zs parent.s_size ]
+                       zs (Z.sub (Z.add parent.s_off parent.s_size) (zi 1)); zs parent.s_off; zs parent.s_size;
+                       bytes_line (sp_as_bytes (zi 4) parent); bytes_line (sp_as_bytes (zi 4) parent) ]
             | r -> res_tok (fun _ -> "?") r in
           let sl =
             if z_lt i len then
               join [ spec_span_line buf start len x; zs (Z.mul len (zi 4)); b2s (z_eq len Z0); zs len;
-                     zs (Z.add start i); zs start; zs (Z.sub (Z.add start len) (zi 1)); zs start; zs len ]
+                     zs (Z.add start i); zs start; zs (Z.sub (Z.add start len) (zi 1)); zs start; zs len;
+                     spec_bytes; spec_bytes ]
             else "na" in
           (ml, sl)
       | _ -> raise Not_found
